@@ -184,6 +184,12 @@ class UnitInterp:
                 decompose(ev[1], ev[2], tmp)
                 for t, tr, node in tmp:
                     st.facts.append((t, tr))
+                    # the same fact with locals that merely name a pure expression substituted (nargs = len(args))
+                    from .sem import canon_expr
+
+                    t2 = canon_expr(node, fn)
+                    if t2 != t:
+                        st.facts.append((t2, tr))
                     self._unit_test(fn, node, tr, st, depth)
             elif kind == "loop":
                 node = ev[1]
